@@ -17,6 +17,20 @@ byte-exactly (`Out.bytes`) for the correspondence with the recording transport.
 outcome (`Err` or the step), and `never_raises` (Props/C17) shows `raises = false` for every message
 `from_bytes` can return and every reachable counter value.
 
+**Configuration.**  The constructor arguments `port` and `be_active_peer` are stored by `__init__`
+(`Cfg` ↦ `init`) and kept in the state (`St.port`, `St.activePeer`): they are plain instance attributes a
+caller can re-assign between datagrams (`Ev.setActive`, `Ev.setPort`).  In the code that exists
+`datagram_received` never reads either of them (`port` appears in a log line of `hstrp_set_connected`
+and as the destination port of `periodic_maintenance`; `be_active_peer` is only stored — every handler,
+active or not, sends CONNECT from `periodic_maintenance` while it is not connected), so `stepBase` /
+`step` carry them through unchanged; `config_irrelevant` (Props/C17) states this, and the state line of
+the correspondence shows both after every delivery.  `St.transport` is the transport handed to
+`connection_made` (`none` before it): `hstrp_send_ack` / `hstrp_send_heartbeat` send only
+`if self.transport`, `rrs_confirm` and `periodic_maintenance` use it unguarded (`AttributeError` on `None`).
+
+Besides datagrams a handler sees `connection_made`, `connection_lost`, attribute re-configuration and
+iterations of `periodic_maintenance`: `Ev` / `applyEv` / `runEv`.
+
 Imports `Model/Storage.lean` only for the Python-dict helpers (`dictSet`/`dictGet`: the registry).
 -/
 
@@ -85,6 +99,9 @@ inductive Out
   | heartbeat
   /-- `rrs_confirm`: registration answer (Success, renew 300 s) with the handler's own S/N -/
   | rrsAnswer (sn : Nat) (radioIp : Bytes)
+  /-- `periodic_maintenance`: `HSTRP(pkt_type=HSTRPPacketType(is_connect=True), sn=0)` (sent to
+  `("192.168.22.18", self.port)`, not to the sender of a datagram) -/
+  | connect
   deriving DecidableEq, Repr, Inhabited
 
 def header : Bytes := [0x32, 0x42]
@@ -110,6 +127,7 @@ def Out.bytes : Out → Bytes
   | .ack m => header ++ [m.version, (ackType m.pktType).byte] ++ be16 m.sn ++ m.optBytes
   | .heartbeat => header ++ [0, 2, 0, 0]
   | .rrsAnswer sn ip => header ++ [0, 32] ++ be16 sn ++ rrsAnswerBytes ip
+  | .connect => header ++ [0, 4, 0, 0]
 
 /-- what `HSTRP.from_bytes` returns for the bytes of an answer (the message a peer handler sees).
 The registration answer has `have_options` set and no options, so `from_bytes` reads the HDAP service
@@ -118,6 +136,14 @@ def Out.asMsg : Out → Option Msg
   | .ack m => some { m with pktType := ackType m.pktType, payload := .none }
   | .heartbeat => some { version := 0, pktType := PktType.ofByte 2, sn := 0, optBytes := [], payload := .none }
   | .rrsAnswer _ _ => Option.none
+  | .connect => some { version := 0, pktType := PktType.ofByte 4, sn := 0, optBytes := [], payload := .none }
+
+/-- constructor arguments of `HSTRPDatagramProtocol(port, be_active_peer=False)` /
+`RRSDatagramProtocol(port, be_active_peer=False)` -/
+structure Cfg where
+  port : Nat
+  activePeer : Bool := false
+  deriving DecidableEq, Repr, Inhabited
 
 /-- handler state: `hstrp_connected`, `sn`, `registry` (radio ip ↦ online?) -/
 structure St where
@@ -126,9 +152,21 @@ structure St where
   /-- insertion-ordered dict `radio_ip.as_ip()` ↦ `RRSRadioState.Online` (`true`) / `Offline` (`false`);
   the key is kept as the four address octets -/
   registry : List (Bytes × Bool)
+  /-- `self.be_active_peer` (stored configuration; nothing reads it) -/
+  activePeer : Bool := false
+  /-- `self.port` (stored configuration; log text and destination port of `periodic_maintenance`) -/
+  port : Nat := 0
+  /-- `self.transport`: identity of the transport handed to `connection_made`, `none` before -/
+  transport : Option Nat := Option.none
   deriving DecidableEq, Repr, Inhabited
 
-def init : St := { connected := false, sn := 0, registry := [] }
+/-- `__init__(port, be_active_peer)`: not connected, S/N 0, empty registry, no transport yet -/
+def init (c : Cfg) : St :=
+  { connected := false, sn := 0, registry := [], activePeer := c.activePeer, port := c.port,
+    transport := Option.none }
+
+/-- `if self.transport: self.transport.sendto(…)` — the guarded sends of `hstrp_send_ack` / `hstrp_send_heartbeat` -/
+def St.send (s : St) (o : List Out) : List Out := if s.transport.isSome then o else []
 
 /-- return value `(was_handled, pdu is not None)` -/
 abbrev Ret := Bool × Bool
@@ -140,24 +178,26 @@ def stepBase (s : St) : Option Msg → St × List Out × Ret
     let t := m.pktType
     let hasPdu := m.payload != .none      -- `isinstance(pdu.payload, HDAP)`
     if t.isConnect then
-      ({ s with connected := true }, (if !t.isAck then [.ack m] else []), (true, hasPdu))
+      ({ s with connected := true }, s.send (if !t.isAck then [.ack m] else []), (true, hasPdu))
     else if t.isHeartbeat then
-      (s, (if s.connected then [.heartbeat] else []), (true, hasPdu))
+      (s, s.send (if s.connected then [.heartbeat] else []), (true, hasPdu))
     else if t.isClose then
-      ({ s with connected := false }, (if !t.isAck then [.ack m] else []), (true, hasPdu))
+      ({ s with connected := false }, s.send (if !t.isAck then [.ack m] else []), (true, hasPdu))
     else if t.isAck then
       (s, [], (true, hasPdu))
     else if t.isReject then
       -- handled, but not "confirmed": the generic rule below acknowledges it
-      (s, [.ack m], (true, hasPdu))
+      (s, s.send [.ack m], (true, hasPdu))
     else
       -- `if not was_confirmed and not pdu.pkt_type.is_ack: self.hstrp_send_ack(addr, pdu)`
-      (s, [.ack m], (false, hasPdu))
+      (s, s.send [.ack m], (false, hasPdu))
 
 /-- `hstrp_increment_sn` -/
 def nextSn (sn : Nat) : Nat := (sn + 1) % 0xFFFF
 
-/-- `RRSDatagramProtocol.datagram_received` -/
+/-- `RRSDatagramProtocol.datagram_received`.  `rrs_confirm` calls `self.transport.sendto` unguarded:
+without a transport the registration answer is not sent but raises (`raisesNoTransport`, `stepE`) — after
+the registry update and the S/N increment, which this total function keeps. -/
 def step (s : St) (m : Option Msg) : St × List Out × Ret :=
   let b := stepBase s m
   let s1 := b.1
@@ -168,7 +208,7 @@ def step (s : St) (m : Option Msg) : St × List Out × Ret :=
     if op = opRequest then
       let sn' := nextSn s1.sn
       ({ s1 with sn := sn', registry := Storage.dictSet s1.registry ip true },
-        outs ++ [.rrsAnswer sn' ip], (true, true))
+        outs ++ s1.send [.rrsAnswer sn' ip], (true, true))
     else if op = opOffline then
       ({ s1 with registry := Storage.dictSet s1.registry ip false }, outs, (true, true))
     else (s1, outs, (handled, true))
@@ -179,12 +219,96 @@ def Out.raises : Out → Bool
   | .ack m => decide (m.version ≥ 256) || decide (m.sn ≥ 65536) || m.optBytes.any (· ≥ 256)
   | .heartbeat => false
   | .rrsAnswer sn ip => decide (sn ≥ 65536) || decide (ip.length ≠ 4) || ip.any (· ≥ 256)
+  | .connect => false
 
 def raises (s : St) (m : Option Msg) : Bool := (step s m).2.1.any Out.raises
 
-/-- the faithful outcome: the exception, or the step -/
-def stepE (s : St) (m : Option Msg) : Except Unit (St × List Out × Ret) :=
-  if raises s m then .error () else .ok (step s m)
+/-- carries an RRS registration request (what makes `rrs_confirm` run) -/
+def isRequest : Option Msg → Bool
+  | some { payload := .rrs op _, .. } => op = opRequest
+  | _ => false
+
+/-- `rrs_confirm` on a handler that never got a transport: `None.sendto` → `AttributeError` -/
+def raisesNoTransport (s : St) (m : Option Msg) : Bool := s.transport.isNone && isRequest m
+
+/-- what `datagram_received` can raise -/
+inductive Exn
+  /-- `OverflowError` of a `to_bytes` (state not modelled further: unreachable, see `never_raises`) -/
+  | overflow
+  /-- `AttributeError` of `rrs_confirm` without transport; the handler is left in state `after` -/
+  | noTransport (after : St)
+  deriving DecidableEq, Repr
+
+/-- the faithful outcome of the RRS handler: the exception, or the step -/
+def stepE (s : St) (m : Option Msg) : Except Exn (St × List Out × Ret) :=
+  if raisesNoTransport s m then .error (.noTransport (step s m).1)
+  else if raises s m then .error .overflow else .ok (step s m)
+
+/-- the faithful outcome of the base handler -/
+def stepBaseE (s : St) (m : Option Msg) : Except Exn (St × List Out × Ret) :=
+  if (stepBase s m).2.1.any Out.raises then .error .overflow else .ok (stepBase s m)
+
+/-- which of the two classes the handler object is -/
+def stepK (rrs : Bool) (s : St) (m : Option Msg) : St × List Out × Ret :=
+  if rrs then step s m else stepBase s m
+
+def stepKE (rrs : Bool) (s : St) (m : Option Msg) : Except Exn (St × List Out × Ret) :=
+  if rrs then stepE s m else stepBaseE s m
+
+/-! ### the other things that happen to a handler -/
+
+/-- `connection_made(transport)`: an old transport that is not closing is closed (returned), the new one
+is stored.  `oldClosing` = what the old transport's `is_closing()` answers (environment input). -/
+def connectionMade (s : St) (t : Nat) (oldClosing : Bool) : St × Option Nat :=
+  ({ s with transport := some t },
+    match s.transport with
+    | some o => if oldClosing then Option.none else some o
+    | Option.none => Option.none)
+
+/-- `connection_lost(exc)`: only the connected flag is reset (transport, S/N, registry stay) -/
+def connectionLost (s : St) : St := { s with connected := false }
+
+/-- one iteration of the `periodic_maintenance` loop: CONNECT to `("192.168.22.18", self.port)` while not
+connected — whatever `be_active_peer` is.  The `sendto` is unguarded (`tickRaises`). -/
+def tick (s : St) : List Out := if s.connected then [] else s.send [.connect]
+
+def tickRaises (s : St) : Bool := !s.connected && s.transport.isNone
+
+/-- the host `periodic_maintenance` sends to (checked against the extracted value in Props/C17) -/
+def tickHost : String := "192.168.22.18"
+
+/-- a new handler after `connection_made(t)`: what datagrams are delivered to -/
+def ready (c : Cfg) (t : Nat := 0) : St := (connectionMade (init c) t false).1
+
+/-- everything that can happen to a handler object between and including datagrams -/
+inductive Ev
+  /-- `datagram_received(data, addr)` with what `HSTRP.from_bytes(data)` gives -/
+  | rx (m : Option Msg)
+  | made (t : Nat) (oldClosing : Bool)
+  | lost
+  /-- `handler.be_active_peer = b` -/
+  | setActive (b : Bool)
+  /-- `handler.port = p` -/
+  | setPort (p : Nat)
+  | tick
+  deriving DecidableEq, Repr, Inhabited
+
+/-- state and `sendto` calls of one event (total; the two unguarded sends raise instead when there is
+no transport: `raisesNoTransport`, `tickRaises`) -/
+def applyEv (rrs : Bool) (s : St) : Ev → St × List Out
+  | .rx m => ((stepK rrs s m).1, (stepK rrs s m).2.1)
+  | .made t c => ((connectionMade s t c).1, [])
+  | .lost => (connectionLost s, [])
+  | .setActive b => ({ s with activePeer := b }, [])
+  | .setPort p => ({ s with port := p }, [])
+  | .tick => (s, tick s)
+
+def runEv (rrs : Bool) (s : St) : List Ev → St × List (List Out)
+  | [] => (s, [])
+  | e :: t =>
+    let r := applyEv rrs s e
+    let rest := runEv rrs r.1 t
+    (rest.1, r.2 :: rest.2)
 
 /-! ### histories -/
 
@@ -196,7 +320,8 @@ def runFrom (s : St) : List (Option Msg) → St × List (List Out)
     let rest := runFrom r.1 t
     (rest.1, r.2.1 :: rest.2)
 
-def run (h : List (Option Msg)) : St × List (List Out) := runFrom init h
+/-- a history delivered to a new handler of configuration `c` (after `connection_made`) -/
+def run (c : Cfg) (h : List (Option Msg)) : St × List (List Out) := runFrom (ready c) h
 
 /-- deliver every message of an inbox to a handler, collecting all its answers in order -/
 def deliver (s : St) : List (Option Msg) → St × List Out
